@@ -50,7 +50,7 @@ class C13(Check):
     floor_nontrivial = 25
     required_counters = ("pipelines_compared", "arrays_compared")
     shards = (14, 16)
-    budget = (90, 700)
+    budget = (300, 700)
 
     def cases(self, tier, seed):
         n = 252 if tier == "quick" else 7000
